@@ -86,7 +86,9 @@ def run_differential(res: Result, prop: str, rng: random.Random, nprograms: int,
                 genprog.unload(mod)
                 continue
             orig_text = case.f.format()
-            for label, thunk in tlist:
+            for entry in tlist:
+                label, thunk = entry[0], entry[1]
+                opts = entry[2] if len(entry) > 2 else {}
                 out = genrun.guarded(thunk, timeout=8.0)
                 if out[0] == 'timeout':
                     res.count('transform_timeout')
@@ -114,6 +116,15 @@ def run_differential(res: Result, prop: str, rng: random.Random, nprograms: int,
                     if transformed_precondition is not None and not transformed_precondition(label, args):
                         res.count('precondition_false')
                         continue
+                    if 'orig_ctx' in opts:
+                        # "evaluated in the corresponding way": the original under the pinned
+                        # context, the transformed program called without one
+                        r0 = genrun.call(case.f, args, ctx=opts['orig_ctx'], timeout=watchdog)
+                        if r0[0] != 'ok':
+                            res.count('orig_raises_under_pinned_ctx')
+                            continue
+                        want = r0[1]
+                        ctx = None
                     r = genrun.call(g2, args, ctx=ctx, timeout=watchdog * 2)
                     res.evaluations += 1
                     if r[0] == 'timeout':
